@@ -47,11 +47,19 @@ def ref_get(c, path):
 
 def biased_path(draw, ctx, min_size=0):
     """a path that is often present / absent at the last step / through a scalar"""
-    mode = draw(st.integers(0, 3))
+    mode = draw(st.integers(0, 4))
     allp = [list(p) for p in gen.paths_of(ctx)]
     if mode == 0 or not allp:
         return draw(st.lists(st.sampled_from(KEYS), min_size=min_size, max_size=4))
     p = list(draw(st.sampled_from(allp)))
+    if mode == 4:
+        # the documented string test: the last component is str() of the scalar found there
+        # (truthy or falsy: 0, False, None)
+        found, v = gen.ref_get(ctx, p)
+        sv = str(v)
+        if found and not isinstance(v, (dict, list)) and sv and "." not in sv:
+            return p + [sv]
+        return p
     if mode == 1:
         return p
     if mode == 2:
